@@ -305,18 +305,27 @@ def group (evs : List LEv) : List Grouped :=
 
 def showP (p : P) : String := "/".intercalate p
 
-def mkEv (c : EvClass) (src : P) (dest : P := []) (syn : Bool := false) : Event :=
-  ⟨c, showP src, showP dest, syn⟩
+/-- a delivered event with structured paths (`[]` = absent) -/
+structure PEv where
+  cls : EvClass
+  src : P
+  dest : P := []
+  syn : Bool := false
+  deriving DecidableEq, Repr, Inhabited
+
+def PEv.toEvent (e : PEv) : Event := ⟨e.cls, showP e.src, showP e.dest, e.syn⟩
+
+def mkEv (c : EvClass) (src : P) (dest : P := []) (syn : Bool := false) : PEv := ⟨c, src, dest, syn⟩
 
 /-- synthetic events for what lies below a directory (order: as listed; the harness compares them as a set) -/
-def subMoved (fs : FS) (srcDir dstDir : P) : List Event :=
+def subMoved (fs : FS) (srcDir dstDir : P) : List PEv :=
   (fs.descendants dstDir).map (fun e =>
     mkEv (if e.isDir then .DirMovedEvent else .FileMovedEvent) (srcDir ++ e.path.drop dstDir.length) e.path true)
-def subCreated (fs : FS) (dir : P) : List Event :=
+def subCreated (fs : FS) (dir : P) : List PEv :=
   (fs.descendants dir).map (fun e => mkEv (if e.isDir then .DirCreatedEvent else .FileCreatedEvent) e.path [] true)
 
 /-- `InotifyEmitter.queue_events` for one grouped item; returns the events and whether the emitter stops -/
-def emit (fs : FS) (recursive full : Bool) (g : Grouped) : List Event × Bool :=
+def emit (fs : FS) (recursive full : Bool) (g : Grouped) : List PEv × Bool :=
   match g with
   | .two f t =>
     let cls := if f.isDir then EvClass.DirMovedEvent else .FileMovedEvent
@@ -358,7 +367,7 @@ def Sys.start (fs : FS) (recursive full : Bool) : Sys :=
   { fs := fs, k := k, lib := lib, full := full }
 
 /-- apply one operation and let the observer drain: the events delivered for it -/
-def Sys.op (s : Sys) (op : Op) : Sys × List Event :=
+def Sys.op (s : Sys) (op : Op) : Sys × List PEv :=
   let (fs1, k1, recs) := kernelOp s.fs s.k op
   if s.stopped || s.crashed then ({ s with fs := fs1, k := k1 }, [])
   else
@@ -366,17 +375,91 @@ def Sys.op (s : Sys) (op : Op) : Sys × List Event :=
     | none => ({ s with fs := fs1, k := k1, crashed := true }, [])
     | some (k2, lib2, levs) =>
       let gs := (group levs).filter (fun g => match g with | .one e => e.flag != .ignored | _ => true)
-      let (evs, stop) := gs.foldl (fun (acc : List Event × Bool) g =>
+      let (evs, stop) := gs.foldl (fun (acc : List PEv × Bool) g =>
           if acc.2 then acc else
           let (e, st) := emit fs1 lib2.recursive s.full g
           (acc.1 ++ e, st)) ([], false)
       ({ s with fs := fs1, k := k2, lib := lib2, stopped := stop }, evs)
 
-def Sys.run (s : Sys) : List Op → Sys × List (List Event)
+def Sys.run (s : Sys) : List Op → Sys × List (List PEv)
   | [] => (s, [])
   | op :: rest =>
     let (s1, evs) := s.op op
     let (s2, more) := s1.run rest
     (s2, evs :: more)
+
+/- ---------------------------- validity of operations (the syscalls' own guards) ---------------------------- -/
+
+def FS.exists (fs : FS) (p : P) : Bool := (fs.find? p).isSome
+def FS.isFile (fs : FS) (p : P) : Bool := match fs.find? p with | some e => !e.isDir | none => false
+
+/-- would the real syscall succeed on this file system? (entries are addressed below `W` or `O`) -/
+def validOp (fs : FS) : Op → Bool
+  | .create p => 2 ≤ p.length && !fs.exists p && fs.isDir (parentOf p)
+  | .mkdir p => 2 ≤ p.length && !fs.exists p && fs.isDir (parentOf p)
+  | .write p => fs.isFile p
+  | .chmod p => 2 ≤ p.length && fs.exists p
+  | .unlink p => fs.isFile p
+  | .rmdir p => (2 ≤ p.length || p == ["W"]) && fs.isDir p && (fs.children p).isEmpty   -- the watched root itself may be removed
+  | .rmtree p => 2 ≤ p.length && fs.isDir p
+  | .rmtreeOrd p order =>
+    2 ≤ p.length && fs.isDir p && order.all (fun q => isUnder p q && fs.exists q) &&
+    (fs.descendants p).all (fun e => order.contains e.path) && decide (order.Nodup) &&
+    -- a directory comes after everything below it
+    (List.range order.length).all (fun i => (List.range order.length).all (fun j =>
+      !(isUnder (order.getD i []) (order.getD j [])) || j < i))
+  | .rename p q =>
+    2 ≤ p.length && 2 ≤ q.length && fs.exists p && fs.isDir (parentOf q) && p != q && !isUnder p q &&
+    (match fs.find? q with
+     | some old => old.isDir == fs.isDir p && (!old.isDir || (fs.children q).isEmpty)
+     | none => true)
+
+/-- paths an operation names -/
+def Op.paths : Op → List P
+  | .create p | .write p | .chmod p | .unlink p | .mkdir p | .rmdir p | .rmtree p | .rmtreeOrd p _ => [p]
+  | .rename p q => [p, q]
+
+/-- the operation is "on entries of the watched tree": every path it names lies below `W`, except that a
+    rename may have its other end below `O` (a move out of, or into, the tree) -/
+def inScope : Op → Bool
+  | .rename p q => (isUnder ["W"] p || isUnder ["W"] q)
+  | op => op.paths.all (isUnder ["W"])
+
+/-- well-formed file system: unique paths, unique inodes below `nextIno`, the two top directories exist,
+    every entry's parent is a directory -/
+def FS.WF (fs : FS) : Prop :=
+  (fs.ents.map Ent.path).Nodup ∧ (fs.ents.map Ent.ino).Nodup ∧ (∀ e ∈ fs.ents, e.ino < fs.nextIno) ∧
+  fs.isDir ["W"] = true ∧ fs.isDir ["O"] = true ∧
+  ∀ e ∈ fs.ents, e.path = ["W"] ∨ e.path = ["O"] ∨ (2 ≤ e.path.length ∧ fs.isDir (parentOf e.path) = true)
+
+/- ---------------------------- C01's replay ---------------------------- -/
+
+abbrev Tree := List (P × Bool)          -- (path, is a directory)
+
+def treeW (fs : FS) : Tree := (fs.ents.filter (fun e => isUnder ["W"] e.path)).map (fun e => (e.path, e.isDir))
+/-- what a non-recursive watch is accountable for: the root's direct children -/
+def treeW1 (fs : FS) : Tree := (treeW fs).filter (fun x => x.1.length = 2)
+
+def eraseSub (t : Tree) (p : P) : Tree := t.filter (fun x => !(x.1 == p || isUnder p x.1))
+
+/-- apply one delivered event to a copy of the tree -/
+def applyEv (t : Tree) (e : PEv) : Tree :=
+  match e.cls.eventType with
+  | "created" => (eraseSub t e.src) ++ [(e.src, e.cls.isDirectory)]
+  | "deleted" => eraseSub t e.src
+  | "moved" =>
+    let t1 := if e.src = [] then t else eraseSub t e.src
+    if e.dest = [] then t1 else (eraseSub t1 e.dest) ++ [(e.dest, e.cls.isDirectory)]
+  | _ => t
+
+def replay (t : Tree) (evs : List PEv) : Tree := evs.foldl applyEv t
+
+def sameTree (a b : Tree) : Prop := ∀ x, x ∈ a ↔ x ∈ b
+
+/-- C02's coverage: every directory that exists at or below `W` has a kernel watch on its inode that the
+    library maps to the directory's real current path -/
+def Covered (s : Sys) : Prop :=
+  ∀ e ∈ s.fs.ents, e.isDir = true → (e.path = ["W"] ∨ isUnder ["W"] e.path = true) →
+    ∃ wd, s.k.wdOfIno e.ino = some wd ∧ lookupW s.lib.pathForWd wd = some e.path
 
 end WD.Pipe
